@@ -402,6 +402,33 @@ def _judge_ridge_reassigned(rng, tag):
     return None
 
 
+def _judge_copied_between(rng, tag):
+    """partial_fit(A); c = node.copy() (or deepcopy); c.partial_fit(B); c.fit(); node.fit(): the node's solution is the optimum on A alone and
+    the copy's the optimum on A + B (the partial sums belong to each object)."""
+    import copy as _copy
+    rpy()
+    from reservoirpy.nodes import Ridge
+    d, o, w = rng.randint(1, 3), rng.randint(1, 2), rng.choice([0, 1])
+    A = (farr(rand_rows(rng, 6, d), d), farr(rand_rows(rng, 6, o), o)); Bd = (farr(rand_rows(rng, 5, d), d), farr(rand_rows(rng, 5, o), o))
+    how = rng.choice(["Node.copy", "deepcopy"])
+    sc = {"tag": tag, "kind": "copied-between", "how": how, "warmup": w}
+    try:
+        r = Ridge(ridge=0.5, name=uname("cb_r"))
+        r.partial_fit(A[0], A[1], warmup=w)
+        c = r.copy(name=uname("cb_c")) if how == "Node.copy" else _copy.deepcopy(r)
+        c.partial_fit(Bd[0], Bd[1], warmup=w); c.fit(); r.fit()
+        ra = Ridge(ridge=0.5, name=uname("cb_a")).fit(A[0], A[1], warmup=w)
+        rab = Ridge(ridge=0.5, name=uname("cb_ab")).fit([A[0], Bd[0]], [A[1], Bd[1]], warmup=w)
+    except Exception as e:  # noqa: BLE001
+        return _viol("ridge:exception", "partial_fit / copy / partial_fit / fit raises %r" % (e,), sc)
+    for got, ref, who in ((r, ra, "the original (data A)"), (c, rab, "the copy (data A + B)")):
+        if not np.allclose(got.Wout, ref.Wout, rtol=1e-9, atol=1e-11) or not np.allclose(got.bias, ref.bias, rtol=1e-9, atol=1e-11):
+            return _viol("ridge:partial-sums-shared-with-copy", "a readout copied (%s) between partial_fit and fit: %s is not the regularised least-squares "
+                         "optimum of the data it was given (the pending sums are shared between the two objects)" % (how, who), sc,
+                         np.asarray(ref.Wout).tolist(), np.asarray(got.Wout).tolist())
+    return None
+
+
 def _judge_bias_toggled(rng, tag):
     """`input_bias` is a hyper-parameter that can be reassigned: fit with bias, set node.input_bias = False, fit again.  The second fit
     is a fit "without bias": its predictor must be the bias-free optimum, i.e. equal to a fresh Ridge(input_bias=False) on the same data."""
@@ -438,7 +465,7 @@ def oracle(ctx, scale=1):
         if v:
             out.append(v)
     for i in range(ctx.n(3, 20)):
-        v = _judge_bias_toggled(rng, "%d_%d" % (ctx.seed, i))
+        v = _judge_bias_toggled(rng, "%d_%d" % (ctx.seed, i)) or _judge_copied_between(rng, "%d_%d" % (ctx.seed, i))
         if v:
             out.append(v)
     return {"evaluations": len(cases) + ctx.n(10, 100) + ctx.n(3, 20), "violations": out,
@@ -452,6 +479,10 @@ def replay(payload):
     if payload.get("scenario", {}).get("kind") == "ridge-reassigned":
         import random
         vs = [v for v in (_judge_ridge_reassigned(random.Random(i), "rq%d" % i) for i in range(20)) if v]
+        return {"violates": bool(vs), "detail": vs[:1]}
+    if payload.get("scenario", {}).get("kind") == "copied-between":
+        import random
+        vs = [v for v in (_judge_copied_between(random.Random(i), "rc%d" % i) for i in range(6)) if v]
         return {"violates": bool(vs), "detail": vs[:1]}
     if payload.get("scenario", {}).get("kind") == "bias-toggled":
         import random
